@@ -330,6 +330,9 @@ def rule_a7(repo, col):
         for p_ in _dt.extract(f.node, opaque_loops=True):
             if p_.end == "return" and isinstance(ast.parse(p_.value, mode="eval").body if p_.value else None, ast.Compare):
                 continue
+            if p_.end == "raise" and any(s_.startswith("<except") and t_ for s_, t_, _ in p_.conds):
+                # the comparison (or the computation of an operand) was attempted and failed: an error report, not an answer
+                continue
             tests = [(s_, t_) for s_, t_, _ in p_.conds if not s_.startswith("<")]
             # an early exit: every deciding test must be an `is None` test that holds
             for s_, t_ in tests:
